@@ -40,6 +40,9 @@ func (s *Store) VerifRevenueFundingRows(account rhp3.Account) (rows []VerifReven
 				rs.Close()
 				return err
 			}
+			if x.amt.IsZero() {
+				continue // contractFunding skips exhausted rows
+			}
 			raws = append(raws, x)
 		}
 		rs.Close()
